@@ -366,7 +366,7 @@ def diagram_holds(expr, dim, rng):
 STATIC = ["C06_unique_dim_ok_iff", "C06_unique_dim_refuses_iff", "C06_unique_dim_order_free", "C06_unique_dim_of_terms",
     "C06_add_dim", "C06_minmax_dim", "C06_child_error", "C06_mul_dim", "C06_pow_refuses_iff", "C06_pow_rational",
     "C06_deriv_dim", "C06_deriv_dim2", "C06_fun_dim", "C06_leaves", "C06_zero_first_accepted",
-    "C06_infer_then_collect_partial"]
+    "C06_infer_then_collect", "C06_infer_then_quantity"]
 
 
 def run(ctx):
